@@ -8,7 +8,7 @@ Theorem lowest_free_spec : forall t m, (m <= lowest_free t m)%N /\ fd_mem t (low
 Proof. exact lowest_free_spec_l. Qed.
 
 (* dup returns the lowest free descriptor >= min and sets close-on-exec as asked *)
-Theorem dup_lowest_free : forall s fd m cx s' fd', k_dup s fd m cx = (s', RFd fd') -> (m <= fd')%N /\ fd_mem (fds s) fd' = false /\ (forall k, (m <= k < fd')%N -> fd_mem (fds s) k = true) /\ k_getfd s' fd' = (s', RFlag cx).
+Theorem dup_lowest_free : forall s fd m cx s' fd', k_dup s fd m cx = (s', RFd fd') -> (m <= fd' < p_limit (k_cur s))%N /\ fd_mem (fds s) fd' = false /\ (forall k, (m <= k < fd')%N -> fd_mem (fds s) k = true) /\ k_getfd s' fd' = (s', RFlag cx).
 Proof. exact dup_lowest_free_l. Qed.
 
 (* a position set through the duplicate is the position seen through the original *)
@@ -28,11 +28,11 @@ Theorem fork_child_is_copy : forall s, g_caught (p_sig (k_cur s)) = [] -> let s1
 Proof. exact fork_child_is_copy_l. Qed.
 
 (* a position set by the child is the position the parent sees after the child exits *)
-Theorem fork_shares_offset : forall s s1 fd w off s2 n s3, k_fork s = (s1, RUnit) -> k_lseek s1 fd w off = (s2, ROff n) -> k_exit s2 = (s3, RUnit) -> exists s4, k_lseek s3 fd WCur 0 = (s4, ROff n).
+Theorem fork_shares_offset : forall s s1 fd w off s2 n s3, k_fork s = (s1, RUnit) -> k_lseek s1 fd w off = (s2, ROff n) -> k_exit s2 = (s3, RChild CExited) -> exists s4, k_lseek s3 fd WCur 0 = (s4, ROff n).
 Proof. exact fork_shares_offset_l. Qed.
 
 (* whatever the child does, the parent's descriptor table, cwd and umask are unchanged *)
-Theorem subshell_isolation : forall s ops, nested 0 ops = true -> k_cur (fst (run s (OFork :: ops ++ [OExit]))) = k_cur s /\ k_susp (fst (run s (OFork :: ops ++ [OExit]))) = k_susp s.
+Theorem subshell_isolation : forall s ops, k_skip s = None -> nested 0 ops = true -> strip (k_cur (fst (run s (OFork :: ops ++ [OExit])))) = strip (k_cur s) /\ map strip (k_susp (fst (run s (OFork :: ops ++ [OExit])))) = map strip (k_susp s).
 Proof. exact subshell_isolation_l. Qed.
 
 (* a caught signal raised while not blocked is recorded at once *)
@@ -40,7 +40,7 @@ Theorem raise_caught : forall s sig, (sig < nsig)%N -> mem_n sig (g_mask (p_sig 
 Proof. exact raise_caught_l. Qed.
 
 (* an ignored signal changes nothing *)
-Theorem raise_ignored : forall s sig, (sig < nsig)%N -> get_disp (g_disp (p_sig (k_cur s))) sig = DIgnore -> snd (k_raise s sig) = RUnit /\ p_sig (k_cur (fst (k_raise s sig))) = p_sig (k_cur s).
+Theorem raise_ignored : forall s sig, (sig < nsig)%N -> mem_n sig (g_mask (p_sig (k_cur s))) = false -> get_disp (g_disp (p_sig (k_cur s))) sig = DIgnore -> snd (k_raise s sig) = RUnit /\ p_sig (k_cur (fst (k_raise s sig))) = p_sig (k_cur s).
 Proof. exact raise_ignored_l. Qed.
 
 (* a blocked signal stays pending and is not recorded *)
@@ -60,7 +60,7 @@ Theorem write_read_roundtrip : forall s fd id o perm data b, get_ofd s fd = Some
 Proof. exact write_read_roundtrip_l. Qed.
 
 (* O_CREAT|O_EXCL on an existing name fails with EEXIST and changes nothing *)
-Theorem excl_refuses_existing : forall s p a f mode k sz pm, k_stat s p = (s, RStat k sz pm) -> flags_ok a f = true -> f_creat f = true -> f_excl f = true -> k_open s p a f mode = (s, RErr EEXIST).
+Theorem excl_refuses_existing : forall s p a f mode k sz pm, can_alloc s 0 = true -> k_stat s p = (s, RStat k sz pm) -> flags_ok a f = true -> f_creat f = true -> f_excl f = true -> k_open s p a f mode = (s, RErr EEXIST).
 Proof. exact excl_refuses_existing_l. Qed.
 
 (* after a successful open with O_TRUNC the file is an empty regular file *)
@@ -128,10 +128,10 @@ Proof. exact script_oracle_complete_l. Qed.
 Example ex_dup_nonvacuous : exists s1 s2, k_dup ex1 3 10 true = (s1, RFd 10%N) /\ k_lseek s1 10 WSet 2 = (s2, ROff 2).
 Proof. exact ex_dup. Qed.
 
-Example ex_fork_nonvacuous : exists s1 s2 s3, k_fork ex1 = (s1, RUnit) /\ k_lseek s1 3 WEnd (-1) = (s2, ROff 2) /\ k_exit s2 = (s3, RUnit).
+Example ex_fork_nonvacuous : exists s1 s2 s3, k_fork ex1 = (s1, RUnit) /\ k_lseek s1 3 WEnd (-1) = (s2, ROff 2) /\ k_exit s2 = (s3, RChild CExited).
 Proof. exact ex_fork. Qed.
 
-Example ex_excl_nonvacuous : exists k sz pm, k_stat ex0 p_f = (ex0, RStat k sz pm) /\ flags_ok AWr fl_creat_excl = true.
+Example ex_excl_nonvacuous : exists k sz pm, can_alloc ex0 0 = true /\ k_stat ex0 p_f = (ex0, RStat k sz pm) /\ flags_ok AWr fl_creat_excl = true.
 Proof. exact ex_excl. Qed.
 
 Example ex_umask_nonvacuous : exists s' fd, k_stat ex0 p_new = (ex0, RErr ENOENT) /\ k_open ex0 p_new AWr fl_creat 438 = (s', RFd fd) /\ mask 438 (p_umask (k_cur ex0)) = 420%N.
@@ -145,6 +145,40 @@ Proof. exact ex_norm_needs_hyp. Qed.
 
 Example oracle_rejects_fd_leak : run_case (CSys ex_tree 18 [OOpen p_f ARd fl_none 0] (mkSysObs [RFd 4] (so_tree (model_obs ex_tree 18 [])) [[]; []; []]) (mkSysObs [RFd 3] (so_tree (model_obs ex_tree 18 [])) [[]; []; []])) = 2%N.
 Proof. exact ex_oracle_rejects. Qed.
+
+(* no descriptor below the limit: an open that would succeed fails with EMFILE and creates or truncates nothing *)
+Theorem open_emfile_no_effect : forall s p a f mode s' fd, can_alloc s 0 = false -> k_open_inner s p a f mode = (s', RFd fd) -> k_open s p a f mode = (s, RErr EMFILE).
+Proof. exact open_emfile_no_effect_l. Qed.
+
+(* a pipe that cannot get both descriptors keeps none: the state is unchanged *)
+Theorem pipe_emfile_no_leak : forall s e, snd (k_pipe s) = RErr e -> fst (k_pipe s) = s.
+Proof. exact pipe_emfile_no_leak_l. Qed.
+
+(* both descriptors of a pipe are below the limit *)
+Theorem pipe_below_limit : forall s s' r w, k_pipe s = (s', RPipe r w) -> (r < p_limit (k_cur s))%N /\ (w < p_limit (k_cur s))%N.
+Proof. exact pipe_below_limit_l. Qed.
+
+(* dup with no free descriptor between min and the limit: EMFILE, nothing changes *)
+Theorem dup_emfile : forall s fd m cx e, fd_get (fds s) fd = Some e -> (m <= fd_limit)%N -> (m < p_limit (k_cur s))%N -> can_alloc s m = false -> k_dup s fd m cx = (s, RErr EMFILE).
+Proof. exact dup_emfile_l. Qed.
+
+(* a fatal signal for the caller's own group kills the child that has the default action: nothing more of it runs, its waiting ancestors (which ignore the signal) are unchanged and the parent learns the signal at the child's exit *)
+Theorem group_kill_child_dies : forall s parent rest sig, k_skip s = None -> k_susp s = parent :: rest -> (sig < nsig)%N -> sig <> sigtstp -> mem_n sig (g_mask (p_sig (k_cur s))) = false -> get_disp (g_disp (p_sig (k_cur s))) sig = DDefault -> signal_ancestors (k_susp s) (snd (p_id (k_cur s))) sig = Some (k_susp s) -> let s1 := fst (k_kill s TGroup0 sig) in snd (k_kill s TGroup0 sig) = RSkip /\ (forall o, o <> OFork -> o <> OExit -> step s1 o = (s1, RSkip)) /\ fst (step s1 OExit) = mkK (k_ino s) (k_ofd s) parent rest None /\ snd (step s1 OExit) = RChild (CSignaled sig).
+Proof. exact group_kill_child_dies_l. Qed.
+
+(* a waiting process that ignores the signal is not changed by a signal for its group *)
+Theorem signal_ancestors_ignored : forall p sig pg, get_disp (g_disp (p_sig p)) sig = DIgnore -> mem_n sig (g_mask (p_sig p)) = false -> signal_ancestors [p] pg sig = Some [p].
+Proof. exact signal_ancestors_ignored_l. Qed.
+
+(* kill(-getpid()) by a process that leads no group: ESRCH *)
+Theorem kill_neg_pid_not_leader : forall s sig, (sig < nsig)%N -> fst (p_id (k_cur s)) <> snd (p_id (k_cur s)) -> k_kill s TNegPid sig = (s, RErr ESRCH).
+Proof. exact kill_neg_pid_not_leader_l. Qed.
+
+Example ex_pipe_emfile : k_pipe ex_lim = (ex_lim, RErr EMFILE) /\ snd (k_open ex_lim p_f ARd fl_none 0) = RFd 3 /\ can_alloc (fst (k_open ex_lim p_f ARd fl_none 0)) 0 = false.
+Proof. exact ex_pipe_emfile. Qed.
+
+Example ex_group_kill : snd (run ex0 [OSigaction 2 DIgnore; OFork; OSigaction 2 DDefault; OKill TGroup0 2; OGetcwd; OExit; OGetSigaction 2]) = [RDisp DDefault; RUnit; RDisp DIgnore; RSkip; RSkip; RChild (CSignaled 2); RDisp DIgnore].
+Proof. exact ex_group_kill. Qed.
 
 Print Assumptions lowest_free_spec.
 Print Assumptions dup_lowest_free.
@@ -183,3 +217,12 @@ Print Assumptions ex_umask_nonvacuous.
 Print Assumptions ex_norm_nonvacuous.
 Print Assumptions norm_needs_resolvable.
 Print Assumptions oracle_rejects_fd_leak.
+Print Assumptions open_emfile_no_effect.
+Print Assumptions pipe_emfile_no_leak.
+Print Assumptions pipe_below_limit.
+Print Assumptions dup_emfile.
+Print Assumptions group_kill_child_dies.
+Print Assumptions signal_ancestors_ignored.
+Print Assumptions kill_neg_pid_not_leader.
+Print Assumptions ex_pipe_emfile.
+Print Assumptions ex_group_kill.
